@@ -32,7 +32,7 @@ EXPECT_CFG = {'big': (None, 32, 0), 'u8': (1, 32, 0), 'i16': (2, 32, 0), 'u32': 
 CORNER_X = [   # the operations added by the coverage audit
     'n n w0,1 n', 'n n n w2,0 w0,1 n n', 'n n y0,1 d0 d0 n', 'n m0 w0,0 d0', 'n n m0 y0,1 m1 w1,0 n',
     'n d0 v n d0 v c', 'n a0 n v x0 d0 v d0 n', 'n n a0 p0,0 n', 'n a0 n a0 n p1,0 x0 d0 n n', 'n n a0 i0,0 z0 z0 d0 d0 n',
-    'n q0 q0 d0 d0 n', 'e', 'n d0 e n', 'n n d0 d0 e e n', 'n s0 n s1 a0 a0 d0 n', 'n s0 n s1 a0 p0,0 i0,0 d0 n', 'n n n s0 s1 s2 a0 a0 i0,0 x0 a0 a0 d0 d0 n',
+    'n q0 q0 d0 d0 n', 'e', 'n d0 e n', 'n n d0 d0 e e n', 'n f0', 'n n d0 f0 n', 'n f0 d0 f0 e n', 'n s0 n s1 a0 a0 d0 n', 'n s0 n s1 a0 p0,0 i0,0 d0 n', 'n n n s0 s1 s2 a0 a0 i0,0 x0 a0 a0 d0 d0 n',
     'n n n a0 a0 a0 z0 z1 x0 d2 d0 d0 n',
 ]
 
@@ -53,7 +53,7 @@ def gen_ops(r, n, mode):
             w = 'n' if j < n // 2 else ('d%d' % r.below(16) if x < 90 else 'n')
         elif mode == 5:      # row-object traffic: move / move-assign / swap / copy / table move
             w = ('n' if x < 25 else 'w%d,%d' % (r.below(5), r.below(5)) if x < 40 else 'y%d,%d' % (r.below(5), r.below(5)) if x < 50 else 'm%d' % r.below(5) if x < 58
-                 else 'q%d' % r.below(4) if x < 64 else 'v' if x < 70 else 'e' if x < 75 else 'd%d' % r.below(5) if x < 92 else 'a%d' % r.below(3) if x < 96 else 'x0')
+                 else 'q%d' % r.below(4) if x < 64 else 'v' if x < 69 else 'e' if x < 72 else 'f%d' % r.below(3) if x < 75 else 'd%d' % r.below(5) if x < 92 else 'a%d' % r.below(3) if x < 96 else 'x0')
         else:
             w = ('n' if x < 30 else 'd%d' % r.below(6) if x < 56 else 'a%d' % r.below(4) if x < 64 else 'x%d' % r.below(5) if x < 71 else 'z%d' % r.below(5) if x < 75
                  else 'm%d' % r.below(4) if x < 78 else 's%d' % r.below(4) if x < 82 else 'r%d' % r.below(5) if x < 86 else 'w%d,%d' % (r.below(4), r.below(4)) if x < 90
@@ -382,7 +382,7 @@ def run(ctx):
                         'CAS/exchange) and tested with ThreadSanitizer, not proved',
                         'a detached Row object is used/destroyed by one thread at a time (hand-over between threads is synchronised by the client)',
                         'MemPool hands out only free buffers (C20/C09) and may overwrite a buffer it holds; the table outlives its detached rows']
-    ctx.regen(['gen_datarow.json', 'gen_owner.json'])      # T-gen: DataRow::~DataRow / ptGetRaw / ptExtractRaw, DataTable::pvDeallocateFreeRaws / pvAllocateRaw
+    ctx.regen(['gen_datarow.json', 'gen_owner.json', 'gen_uintmath.json', 'gen_poolconst.json', 'gen_rawpool.json'])      # T-gen: DataRow::~DataRow / ptGetRaw / ptExtractRaw, DataTable::pvDeallocateFreeRaws / pvAllocateRaw
     ctx.prove()
     flags = ['-pthread']
     harness = ctx.cxx('harness.cpp', 'harness', flags, sanitize=False)
@@ -391,7 +391,9 @@ def run(ctx):
         return ctx.finish(rule=RULE)
     tsan = ctx.cxx('harness.cpp', 'harness_tsan', flags + ['-fsanitize=thread'], sanitize=False)
     asan = ctx.cxx('harness.cpp', 'harness', flags, sanitize=True) if not ctx.quick() else None
-    have_model = ctx.stages.get('prove', {}).get('ok') and ctx.extract()
+    # the executable machine is extracted even when a PROOF broke (e.g. a regenerated function no longer satisfies its refinement lemma):
+    # the hand machine still compiles, so conformance and trace replay keep running and can supply the concrete input
+    have_model = ctx.extract()
 
     # ---- tie (a): static conformance of the four member functions with the machine
     if have_model:
